@@ -18,7 +18,7 @@ func init() { register(c19{}) }
 func (c19) ID() string            { return "C19" }
 func (c19) EvidenceLevel() string { return "exploration" }
 func (c19) Rule() string {
-	return "case = (constructor 4K or ordinary, level in {1,2,-1} plus 3..9 on the 4K constructor, data built so that matches exist exactly at a chosen distance: a random chunk repeated with period p for p in 4090..4102, 32762..32774, 65530..65542 (16-bit position aliasing), two interleaved periods, far copies at W-1/W/W+1, inputs of 3-5 x 64 KiB; an enumerated sweep of total lengths W+1..W+48 with period W+1..W+3 over a compressible unit, compressed in one go; Write/Flush partitions as in C09). The reference inflater decodes the whole output recording every match distance: the maximum must be <= 4096 (4K constructor) resp. <= 32768, the stream must also decode with a reference whose history is truncated to the window, and the data must round-trip. Non-trivial: the stream contains at least one match; distinct by (setting, data digest, schedule)."
+	return "case = (constructor 4K or ordinary, level in {1,2,-1} plus 3..9 on the 4K constructor, data built so that matches exist exactly at a chosen distance: a random chunk repeated with period p for p in 4090..4102, 32762..32774, 65530..65542 (16-bit position aliasing), two interleaved periods, far copies at W-1/W/W+1, inputs of 3-5 x 64 KiB; an enumerated sweep of total lengths W+1..W+48 with period W+1..W+3 over a compressible unit, compressed in one go; a token-cap sweep on the 4K constructor (leading zero run of K bytes for 2900 consecutive K, incompressible rest, far repeats at every buffer-fill point); reused Writers whose earlier destination failed; Write/Flush partitions as in C09). The reference inflater decodes the whole output recording every match distance: the maximum must be <= 4096 (4K constructor) resp. <= 32768, the stream must also decode with a reference whose history is truncated to the window, and the data must round-trip. Non-trivial: the stream contains at least one match; distinct by (setting, data digest, schedule)."
 }
 func (c19) NumCases(tier string) int {
 	if tier == "thorough" {
@@ -153,15 +153,43 @@ func (c19) Run(c *mon.Ctx, i int) {
 		d, ops = mk()
 		c.Count("first-window-boundary-sweep", 1)
 	}
+	if i%10 == 7 && s.Win4K {
+		// token-cap sweep: a leading zero run of K bytes, then incompressible bytes
+		// (one token each), so that the number of pending tokens at the points
+		// where the input buffer fills walks across the token buffer's capacity
+		// (32767; the match finder is entered through its fallback when fewer than
+		// four slots are left); at those points repeats from just beyond the
+		// window are on offer
+		k := i / 10
+		for t := 0; t < 20; t++ {
+			K := 1500 + (k*20+t)%2900
+			dd := tokenCapFarCopy(r, K, 60000, W+1+r.Intn(3))
+			oo := []gen.Op{{Kind: "write", N: len(dd.B)}, {Kind: "close"}}
+			o, e := emit(c.API, s, dd.B, oo)
+			if e != nil {
+				c.Count("dropped:writer-error", 1)
+				continue
+			}
+			c19Verify(c, -1, s, W, dd, oo, o, false)
+		}
+		c.Count("token-cap-sweep-cases", 1)
+	}
 	// call pattern: in a third of the cases the Writer has served another stream
 	// before (written, perhaps closed, then Reset)
 	reused := i%3 == 1
 	var out []byte
 	var err error
 	if reused {
-		var b0, b bytes.Buffer
+		var b bytes.Buffer
 		var w impl.Writer
-		w, err = NewWriter(c.API, s, &b0)
+		// the earlier stream's destination fails in half of the cases
+		b0 := &Sink{}
+		if r.Bool() {
+			b0.FailAt = r.Pick(1, 1, 2, 3)
+			b0.FailErr = errDst
+			c.Count("streams-from-a-writer-reset-after-a-destination-error", 1)
+		}
+		w, err = NewWriter(c.API, s, b0)
 		if err == nil {
 			prev := gen.Make(r, []string{"text", "uniform", "period"}[r.Intn(3)], r.Pick(10, 5000, 20000, 70000))
 			w.Write(prev.B)
